@@ -103,6 +103,110 @@ def payload_call(sy, e):
     return None
 
 
+def _const_of(e):
+    """value of a constant expression (`(usize::BITS as usize + 6) / 7` is computed at run time in unoptimised MIR)"""
+    if e[0] == "c" and isinstance(e[1], int):
+        return e[1]
+    if e[0] == "cast":
+        return _const_of(e[2])
+    if e[0] == "bin":
+        a, b = _const_of(e[2]), _const_of(e[3])
+        if a is None or b is None:
+            return None
+        op = e[1].replace("Unchecked", "").replace("WithOverflow", "")
+        try:
+            return {"Add": a + b, "Sub": a - b, "Mul": a * b, "Div": a // b if b else None, "Shl": a << b if b < 64 else None, "Shr": a >> b if b < 64 else None}.get(op)
+        except Exception:
+            return None
+    return None
+
+
+def counter_bound(f, bi, e):
+    """upper bound of `k * c` / `c` / `c * k` at block bi, where c is a loop counter: one constant initialisation, only
+    `c += 1` steps, and between every step and bi a test that ends the loop when c reaches a constant
+    (`if c == K { return .. }` right behind the increment, `while c < K`): inductively c <= K - 1 at bi.
+    returns (bound of the whole expression, reason) or None"""
+    sy = sym(f)
+    c = cfg(f)
+    k = 1
+    if e[0] == "cast":
+        e = e[2]
+    if e[0] == "l":
+        e2 = sy.origin(e)  # `let shift = 7 * i;`
+        if e2 != e and e2[0] == "bin":
+            e = e2
+    if e[0] == "bin" and e[1].replace("Unchecked", "") == "Mul":
+        ka, kb = _const_of(e[2]), _const_of(e[3])
+        if ka is not None and e[3][0] == "l":
+            k, e = ka, e[3]
+        elif kb is not None and e[2][0] == "l":
+            k, e = kb, e[2]
+        else:
+            return None
+    if e[0] != "l":
+        return None
+    cl = e[1]
+    inits, steps = [], []
+    for d in sy.defs.get(cl, []):
+        if d[0] != "stmt":
+            return None
+        rv = sy.rvalue(d[3], 1)
+        cv = _const_of(rv)
+        if cv is not None:
+            inits.append(cv)
+        elif rv[0] == "bin" and rv[1].replace("Unchecked", "") == "Add" and rv[2] == ("l", cl) and _const_of(rv[3]) == 1:
+            steps.append(d[1])
+        else:
+            return None
+    if len(inits) != 1 or not steps or k <= 0:
+        return None
+    bound = inits[0]
+    why = []
+    for sb in steps:
+        # a test of the counter against a constant whose loop-continuing edge every path from the step to bi takes
+        best = None
+        for tb in range(len(f.blocks)):
+            if f.blocks[tb]["cleanup"] or f.term(tb)["k"] != "switch":
+                continue
+            for tgt, fa in guards.switch_edges(f, tb):
+                if fa[0] != "cmp":
+                    continue
+                lhs, rhs, opx = fa[2], fa[3], fa[1]
+                if rhs == ("l", cl):
+                    lhs, rhs, opx = rhs, lhs, guards.FLIP[opx]
+                K = _const_of(rhs)
+                if lhs != ("l", cl) or K is None:
+                    continue
+                ub = {"Ne": K - 1 if inits[0] < K else None, "Lt": K - 1, "Le": K}.get(opx)
+                if ub is None:
+                    continue
+                # every path from the increment to bi uses this edge?
+                seen = set()
+                st = list(f.succs(sb)) if sb != tb else []
+                if sb == tb:
+                    st = [x for x in f.succs(tb) if x != tgt]
+                ok = True
+                while st:
+                    x = st.pop()
+                    if x in seen:
+                        continue
+                    seen.add(x)
+                    if x == bi:
+                        ok = False
+                        break
+                    for y in f.succs(x):
+                        if x == tb and y == tgt:
+                            continue
+                        st.append(y)
+                if ok and (best is None or ub < best[0]):
+                    best = (ub, "%s %s %d" % (sy.show(("l", cl)), opx, K))
+        if best is None:
+            return None
+        bound = max(bound, best[0])
+        why.append(best[1])
+    return (k * bound, "%s starts at %d, steps by 1, and continues only while %s" % (sy.show(("l", cl)), inits[0], " / ".join(sorted(set(why)))))
+
+
 def discharge(facts, tn, f, bi, t, guard_rows):
     sy = sym(f)
     op = t.get("op", t["msg"])
@@ -136,7 +240,10 @@ def discharge(facts, tn, f, bi, t, guard_rows):
         g = guards.holds(f, bi, lambda fa: fa[0] == "cmp" and fa[1] == "Ne" and (fa[3] == ("c", 64) or fa[2] == ("c", 64)) or fa[0] == "notin" and 64 in fa[2])
         if g and not tainted[0] or g:
             return "guard", "shift amount behind != 64 (trailing_zeros() & !7 <= 64)"
-        return None, "shift by a data dependent amount"
+        cb = counter_bound(f, bi, b) if b is not None else None
+        if cb is not None and cb[0] < 64:
+            return "counter-bound", "shift by at most %d: %s" % cb
+        return None, "shift by a data dependent amount" + ("" if cb is None else " (up to %d: %s)" % cb)
     if op == "Sub" and b is not None:
         if b[0] == "c":
             c = b[1]
